@@ -248,7 +248,7 @@ fn gen_vec<T>(r: &mut Rng, max: u64, mut f: impl FnMut(&mut Rng) -> T) -> Vec<T>
 // ------------------------------------------------------------------------------------------------
 
 pub fn gen_typed(r: &mut Rng) -> TV {
-    match r.below(49) {
+    match r.below(51) {
         0 => TV::Unit,
         1 => TV::I32(gen_i32(r)),
         2 => TV::I64(gen_i64(r)),
@@ -330,6 +330,13 @@ pub fn gen_typed(r: &mut Rng) -> TV {
                 m.insert(gen_string(r), gen_vec(r, 3, gen_i32));
             }
             TV::MapVec { m }
+        }
+        48 | 49 => {
+            let mut m = BTreeMap::new();
+            for _ in 0..r.below(3) {
+                m.insert(gen_string(r), gen_i32(r));
+            }
+            TV::Ev2 { kind: r.below(4) as u8, n: gen_i32(r), v: gen_vec(r, 3, gen_i32), m, o: if r.chance(1, 3) { None } else { Some(gen_i32(r)) } }
         }
         43 => TV::HdrBodyVec { v: gen_vec(r, 4, gen_i32), n: gen_i32(r) },
         38 => TV::AttrRows { rows: gen_vec(r, 3, |r| gen_vec(r, 3, gen_i32)), n: gen_i32(r) },
